@@ -17,6 +17,7 @@ func init() {
 			"D2 the request-type registry equals the case set of handleConn's dispatch; D3 a request that fails to decode never reaches the store/executor, an undecodable point inside a write request makes the request fail (nil marker kept by unmarshalPoints and rejected before WriteToShard); " +
 			"D4 for every message struct with MarshalBinary/UnmarshalBinary the fields written equal the fields restored, the five point codecs and the aux codec write every value field they read; D5 no single-result type assertion in UnmarshalBinary bodies; D6 frozen table of explicit panic sites in the coordinator package and the iterator encoder; D7 a failed framed exchange poisons the pooled connection. " +
 			"D8 in every UnmarshalBinary of the coordinator's wire types the error of every fallible call is tested or returned. " +
+			"D2 also: a frame of unknown type ends the connection; D9 a binary point is validated for every field type before any consumer reads it; D10 the arguments of a call expression are indexed only under an established length test on the serving side; D11 panicking constructors only on constants; D12 the dispatcher's reply carries the processing error. " +
 			"NOT decided: panics inside protobuf/snappy, semantic equality of decoded expressions, the text of error replies.",
 		RuleText:    "obligation = (rule, function, use/site/field); path exploration with decomposed branch conditions for D1; registry/case-set agreement; field read/write agreement of codec pairs",
 		Assumptions: commonAssumptions,
